@@ -120,6 +120,32 @@ pub fn profile_full() -> Profile {
     p
 }
 
+pub fn profile_audit() -> Profile {
+    let mut p = profile_full();
+    p.name = "audit";
+    p.w.insert("audit", 5);
+    p.w.insert("ownership", 12);
+    p.steps = (20, 45);
+    p.fault_pct = 0;
+    p.drain = false;
+    p
+}
+
+pub fn profile_epoch() -> Profile {
+    Profile {
+        name: "epoch",
+        w: wmap(&[("epoch_new", 3), ("epoch_probe", 10), ("em_cfg", 4)]),
+        steps: (30, 80),
+        fault_pct: 0,
+        setup_steps: 0,
+        drain: false,
+        clock_pct: 0,
+        allow_em_reconfig: true,
+        allow_pm_addr_churn: false,
+        genesis_offset_pct: 40,
+    }
+}
+
 pub fn gen_cfg(rng: &mut Rng, prof: &Profile) -> WorldCfg {
     let denoms: Vec<(String, u8)> = vec![
         ("uom".into(), 6),
@@ -205,7 +231,7 @@ impl Gen {
         // swarm: disable a random subset of op kinds for this run
         let mut disabled = vec![];
         let kinds: Vec<&'static str> = prof.w.keys().cloned().collect();
-        if rng.chance(1, 2) {
+        if rng.chance(1, 2) && kinds.len() > 6 {
             let n = rng.below(3) + 1;
             for _ in 0..n {
                 let k = *rng.pick(&kinds);
@@ -1342,15 +1368,68 @@ impl Gen {
             _ => Some(mantra_dex_std::epoch_manager::EpochConfig {
                 duration: (*self.rng.pick(&[DAY, DAY - 1, 2 * DAY, 100_000])).into(),
                 genesis_epoch: match self.rng.below(4) {
-                    0 => now - 1,
+                    0 => now.saturating_sub(1),
                     1 => now,
-                    2 => now + 1,
-                    _ => now + self.rng.range(1, 2 * DAY),
+                    2 => now.saturating_add(1),
+                    _ => now.saturating_add(self.rng.range(1, 2 * DAY)),
                 }
                 .into(),
             }),
         };
         Op::Em { sender, msg: mantra_dex_std::epoch_manager::ExecuteMsg::UpdateConfig { epoch_config }, funds: vec![] }
+    }
+
+    fn gen_epoch_new(&mut self, c: &SimCore) -> Op {
+        let now = c.w.now();
+        let max_s = u64::MAX / 1_000_000_000;
+        let genesis = match self.rng.below(10) {
+            0 => now.saturating_sub(1),
+            1 => now,
+            2 => now.saturating_add(1),
+            3 => now.saturating_add(self.rng.range(1, 10 * DAY)),
+            4 => max_s - self.rng.range(0, 3 * DAY),
+            5 => max_s + self.rng.range(1, 100),
+            6 => u64::MAX - self.rng.range(0, 100),
+            _ => now.saturating_add(self.rng.range(0, 3 * DAY)),
+        };
+        let duration = match self.rng.below(12) {
+            0 => DAY - 1,
+            1 | 2 | 3 => DAY,
+            4 => DAY + 1,
+            5 => 100_000,
+            6 => 1u64 << self.rng.range(17, 40),
+            7 => (1u64 << 62) + self.rng.range(0, 5),
+            8 => u64::MAX / 2 + self.rng.range(0, 3),
+            9 => u64::MAX - self.rng.range(0, 3),
+            10 => 0,
+            _ => self.rng.range(DAY, 30 * DAY),
+        };
+        Op::EpochNew { genesis, duration }
+    }
+
+    /// clock moves for the epoch profile: onto boundaries of the probed epoch manager, small and
+    /// very large multiples, and jumps towards the end of representable time
+    fn gen_epoch_dt(&mut self, c: &SimCore) -> u64 {
+        let now = c.w.now();
+        let em = c.probe_em.clone();
+        let cfg = c.w.em_config(&em).epoch_config;
+        let (g, d) = (cfg.genesis_epoch.u64(), cfg.duration.u64().max(1));
+        let max_s = u64::MAX / 1_000_000_000;
+        let target = match self.rng.below(12) {
+            0..=4 => {
+                // next boundaries -1/0/+1
+                let k = if now >= g { ((now - g) / d).saturating_add(1) } else { 0 };
+                let k = k.saturating_add(match self.rng.below(6) { 0 => 1, 1 => self.rng.range(2, 50), _ => 0 });
+                let b = g.saturating_add(k.saturating_mul(d));
+                b.saturating_add(self.rng.below(3)).saturating_sub(1)
+            }
+            5 => now.saturating_add(self.rng.range(1, 3600)),
+            6 => now.saturating_add(self.rng.range(1, d.min(40 * DAY))),
+            7 if self.rng.chance(1, 6) => max_s - self.rng.range(0, 5 * DAY),
+            8 if self.rng.chance(1, 4) => now.saturating_add(self.rng.range(YEAR, 50 * YEAR)),
+            _ => now,
+        };
+        target.min(max_s).saturating_sub(now)
     }
 
     fn gen_freeze(&mut self, c: &SimCore) -> Op {
@@ -1525,7 +1604,7 @@ impl Gen {
             return r;
         }
         self.emitted += 1;
-        let dt = self.gen_dt(c);
+        let dt = if self.prof.name == "epoch" { self.gen_epoch_dt(c) } else { self.gen_dt(c) };
         // setup phase: make sure there are pools with liquidity
         let op = if self.emitted <= self.prof.setup_steps {
             let unfunded = c.obs.pools.iter().any(|p| p.total_share.amount.is_zero());
@@ -1567,6 +1646,9 @@ impl Gen {
             .map(|(k, v)| (*k, *v))
             .collect();
         let weights: Vec<u32> = kinds.iter().map(|(_, w)| *w).collect();
+        if kinds.is_empty() {
+            return Op::Noop;
+        }
         let k = kinds[self.rng.weighted(&weights)].0;
         match k {
             "create_pool" => self.gen_create_pool(c),
@@ -1604,6 +1686,9 @@ impl Gen {
             "ownership" => self.gen_ownership(c),
             "em_cfg" => self.gen_em_cfg(c),
             "freeze" => self.gen_freeze(c),
+            "audit" => Op::Audit,
+            "epoch_probe" => Op::EpochProbe,
+            "epoch_new" => self.gen_epoch_new(c),
             _ => Op::Noop,
         }
     }
